@@ -157,4 +157,11 @@ def c20(rec):
         viol("child-address-mismatch", "MerklePath(parent/child) differs from AddToMerkle(MerklePath(parent), H(child))")
     if not p.endswith("/") and rec["trailing"] != rec["merklePath"]:
         viol("trailing-slash-not-neutral", "MerklePath(path/) differs from MerklePath(path)")
+    # the client-side derivation (MerkleHelper) must recombine to the path's own address wherever the
+    # plain path has at least two segments and its last two are non-empty
+    for q, (par, chh) in zip([p, p + "/" + ch, p + "/"], rec.get("helpers") or []):
+        t = q[:-1] if q.endswith("/") else q
+        segs = t.split("/")
+        if len(segs) >= 2 and segs[-1] != "" and segs[-2] != "" and hx(par + chh) != merkle_path(q):
+            viol("helper-does-not-recombine", f"MerkleHelper({q!r}) recombines to {hx(par + chh)[:12]}…, the path's address is {merkle_path(q)[:12]}…")
     return out
